@@ -203,7 +203,7 @@ func membersTrial(out *childOut, r *Rng, t int, thorough bool, script string) {
 			var st []string
 			for _, n := range c.live() {
 				s := n.g.VerifStatus()
-				li, _ := n.w.LastIndex()
+				li, _ := n.w.inner.LastIndex()
 				st = append(st, fmt.Sprintf("node %d: term %d lead %d commit %d applied %d last %d", n.id, s.Term, s.Lead, s.Commit, s.Applied, li))
 			}
 			out.Violate("C20", sig, fmt.Sprintf("12 s after %s member %d lists [%s]; the acknowledged membership is [%s] (raft: %s)", after, lastNode, bookText(last, names), bookText(exp, names), strings.Join(st, "; ")))
@@ -315,10 +315,10 @@ func membersTrial(out *childOut, r *Rng, t int, thorough bool, script string) {
 		n.serve(lis)
 		if os.Getenv("VERIF_DEBUG") != "" {
 			time.Sleep(300 * time.Millisecond)
-			hs, _ := n.w.HardState()
-			fi, _ := n.w.FirstIndex()
-			li, _ := n.w.LastIndex()
-			sn, _ := n.w.Snapshot()
+			hs, _ := n.w.peekHardState()
+			fi, _ := n.w.inner.FirstIndex()
+			li, _ := n.w.inner.LastIndex()
+			sn, _ := n.w.inner.Snapshot()
 			out.Local("debug restart %d: hs=%+v first=%d last=%d snap@%d conf=%v status=%+v book=%v", id, hs, fi, li, sn.Metadata.Index, sn.Metadata.ConfState.Nodes, n.g.VerifStatus().HardState, n.conn.Nodes())
 		}
 		out.Op("restart %d", id)
